@@ -33,8 +33,12 @@ Proof.
   generalize (set_bits v). intros bits. reflexivity.
 Qed.
 
+Lemma assemble_std l f which fe we :
+  assemble l f which (ret4_get std_ret4 fe we) = l :: (if fe then [f] else []) ++ (if we then which else []).
+Proof. destruct fe, we; cbn; rewrite ?app_nil_r; reflexivity. Qed.
+
 Lemma flagexist_c_std m g ls fe we : flagexist_c std_cfg m g ls fe we = flagexist m g ls fe we.
-Proof. reflexivity. Qed.
+Proof. unfold flagexist_c, flagexist. cbn [c_exist_ret c_exist_all c_upper_group c_upper_labels std_cfg norm]. rewrite assemble_std. reflexivity. Qed.
 
 Lemma model_call_c_std m k : model_call_c std_cfg m k = model_call m k.
 Proof.
